@@ -95,7 +95,7 @@ func (o lruOp) String() string {
 // lruRun executes a sequence on the real cache and on the model, comparing
 // every result, the length and the eviction log after every step. It returns
 // a description of the first disagreement, the rule it breaks, and the number of evictions.
-func lruRun(capacity int, ops []lruOp, withCallback bool) (rule, what string, evictions int, removals int) {
+func lruRun(capacity int, ops []lruOp, withCallback bool, nkeys int) (rule, what string, evictions int, removals int) {
 	var log []int
 	var cb func(int, int)
 	if withCallback {
@@ -145,7 +145,7 @@ func lruRun(capacity int, ops []lruOp, withCallback bool) (rule, what string, ev
 	}
 	// Final contents: every key present in the model is retrievable with its value, every other key is not.
 	// (Gets disturb recency, but the sequence is over.)
-	for k := 0; k < 8; k++ {
+	for k := 0; k < nkeys; k++ {
 		v, ok := c.Get(k)
 		mv, mok := m.vals[k], m.present[k]
 		if ok != mok || (ok && v != mv) {
@@ -183,14 +183,15 @@ func c45() {
 	for k := 0; k < 3; k++ {
 		base = append(base, lruOp{0, k}, lruOp{1, k}, lruOp{2, k})
 	}
-	// Quick: every sequence of exactly 7 operations over Add/Get/Remove x 3 keys + Len.
-	// Thorough: the same at length 8, and length 9 over Add/Get/Remove only (Len is
-	// observed after every step in any case); 10^9 x 4 runs would not fit the budget.
+	// Quick: every sequence of exactly 6 operations over Add/Get/Remove x 3 keys + Len,
+	// and of exactly 7 operations over Add/Get/Remove x 3 keys (Len() is observed after
+	// every step in any case). Thorough: the same at lengths 8 and 9; 10^9 x 4 runs with
+	// Len as an operation would not fit the budget.
 	type space struct {
 		length  int
 		withLen bool
 	}
-	spaces := []space{{7, true}}
+	spaces := []space{{6, true}, {7, false}}
 	if !r.Quick() {
 		spaces = []space{{8, true}, {9, false}}
 	}
@@ -224,7 +225,7 @@ func c45() {
 						var rule, what string
 						var ev, rm int
 						r.Guard(lruCase{capacity, ops}, func() {
-							rule, what, ev, rm = lruRun(capacity, ops, true)
+							rule, what, ev, rm = lruRun(capacity, ops, true, 3)
 						})
 						n++
 						evs += int64(ev)
@@ -284,7 +285,7 @@ func c45() {
 				var rule, what string
 				var ev, rm int
 				r.Guard(map[string]any{"capacity": capacity, "ops": opsText(ops), "callback": withCallback}, func() {
-					rule, what, ev, rm = lruRun(capacity, ops, withCallback)
+					rule, what, ev, rm = lruRun(capacity, ops, withCallback, nkeys)
 				})
 				n++
 				if rule != "" {
